@@ -275,3 +275,11 @@ def r17_5(ctx):
                       "(a same-named file in the working directory would be executed)", site=ctx.site(rs, bad))
     else:
         ctx.ok("literal shell name only on the Err edge of which()", site=ctx.site(rs, wh[0][0]))
+
+
+@rule("C17", "R17.6", floor=2)
+def r17_6(ctx):
+    """the shell a run command is handed to is the one configured for the command in effect: `txtpp verify -s "<shell>"` configures the
+    shell of the verify run (CLI plumbing: Config.shell_cmd is the `--shell` that belongs to the subcommand's own arguments)"""
+    from rules_io import _cli_flags_of_subcommand
+    _cli_flags_of_subcommand(ctx, "shell_cmd", "shell")
